@@ -88,7 +88,7 @@ Lemma step_keeps_settled w o r res :
   settled w r res -> sets_input r o = false -> settled (fst (step buf maxb w o)) r res.
 Proof.
   intros Hs Hset. pose proof Hs as (rq & Hr & Hres).
-  destruct o as [r' k|r'|r' v|r'|r' d sc]; cbn [step].
+  destruct o as [r' k|r'|r' v|r'|r' d sc|r' k]; cbn [step].
   - (* OBody *)
     destruct (nth_error (w_reqs w) r') as [rq'|] eqn:Hr'; [|exact Hs].
     destruct (r_failed rq') eqn:Hf'; [exact Hs|].
@@ -120,6 +120,13 @@ Proof.
     destruct (nth_error (w_reqs w) r') as [rq'|] eqn:Hr'; [|exact Hs].
     cbn [fst]. eapply settled_untouched; [|exact Hs]. intros rq0 H0. cbn [w_reqs].
     rewrite nth_error_set_nth_neq by congruence. exact H0.
+  - (* OHandOn: only appends a stream and a request object *)
+    destruct (nth_error (w_reqs w) r') as [rq'|] eqn:Hr'; [|exact Hs].
+    destruct (r_failed rq'); [exact Hs|].
+    destruct (r_cache rq') as [c'|]; [|exact Hs].
+    destruct (body_read_cl (stream_init c' []) buf maxb (r_cl rq')) as [body sp s'|s'|s'|]; cbn [fst]; try exact Hs;
+      (eapply settled_untouched; [|exact Hs]; intros rq0 H0; cbn [w_reqs];
+       rewrite nth_error_app1; [exact H0 | eapply nth_error_Some_lt; exact H0]).
 Qed.
 
 Lemma run_keeps_settled ops : forall w r res,
@@ -206,7 +213,7 @@ Hypothesis Hbuf : 0 < buf.
 
 (* operations that neither read a body nor install a stream *)
 Definition passive (o : op) : bool :=
-  match o with OBody _ _ | OSetInput _ _ _ => false | _ => true end.
+  match o with OBody _ _ | OSetInput _ _ _ | OHandOn _ _ => false | _ => true end.
 
 (* invariant of passive histories from world_init: one untouched stream, nothing settled anywhere *)
 Definition fresh (data : list N) (sc : list nat) (w : world) : Prop :=
@@ -224,7 +231,7 @@ Proof. intros H E. rewrite Forall_forall in H. apply H. eapply nth_error_In; exa
 Lemma step_fresh data sc mb w o :
   fresh data sc w -> passive o = true -> fresh data sc (fst (step buf mb w o)).
 Proof.
-  intros [Hs Hr] Hp. destruct o as [r k|r|r v|r|r d s]; try discriminate; cbn [step];
+  intros [Hs Hr] Hp. destruct o as [r k|r|r v|r|r d s|r k]; try discriminate; cbn [step];
     destruct (nth_error (w_reqs w) r) as [rq|] eqn:E; cbn [fst]; try (split; assumption).
   - (* OCopy *)
     destruct (Forall_nth_error _ _ _ _ Hr E) as (Hi & Hc & Hf).
@@ -276,6 +283,54 @@ Proof.
   - eexists. split; [cbn [w_reqs]; apply nth_error_set_nth_eq; eapply nth_error_Some_lt; exact Hr|].
     split; reflexivity.
   - exists s'. cbn [w_streams set_nth]. auto.
+Qed.
+
+(* The next consumer of the environ.  A request object that presents the buffered body c hands its environ on (OHandOn):
+   the consumer is presented exactly the first Content-Length bytes of c — c itself when Content-Length is the one c
+   was buffered under —, keeps them as its own buffered body; the original goes on presenting c; no stream that existed
+   before is touched, and the only stream read is the buffered copy, never past its byte Content-Length. *)
+Lemma hand_on_lemma w r rq c k :
+  nth_error (w_reqs w) r = Some rq -> r_failed rq = false -> r_cache rq = Some c ->
+  let body := firstn (Z.to_nat (r_cl rq)) c in
+  exists w' s',
+    step buf None w (OHandOn r k) = (w', OutBytes (take_opt k body))
+    /\ cached w' (length (w_reqs w)) body
+    /\ cached w' r c
+    /\ w_streams w' = w_streams w ++ [s']
+    /\ pos s' = Nat.min (Z.to_nat (r_cl rq)) (length c)
+    /\ reqs_ok buf (Z.to_nat (r_cl rq)) (reqs s').
+Proof.
+  intros Hr Hf Hc body. cbn [step]. rewrite Hr, Hf, Hc.
+  destruct (C04_exact_lemma c [] buf (r_cl rq) Hbuf) as (s' & Heq & _ & Hpos & Hreq).
+  rewrite Heq. eexists; exists s'. split; [reflexivity|].
+  split; [|split; [|split; [reflexivity|split; assumption]]].
+  - eexists. split; [cbn [w_reqs]; rewrite nth_error_app2 by lia; rewrite Nat.sub_diag; reflexivity|].
+    split; reflexivity.
+  - exists rq. split; [cbn [w_reqs]; rewrite nth_error_app1; [exact Hr | eapply nth_error_Some_lt; exact Hr]|].
+    split; assumption.
+Qed.
+
+(* ... and when the body was buffered by the first access of a passive history, under a Content-Length that was not
+   rewritten since, the next consumer is presented that very body: the first Content-Length bytes of the server stream *)
+Lemma hand_on_after_first_access data sc cl0 pre r rq k k' :
+  forallb passive pre = true ->
+  let w := fst (run buf None (world_init data sc cl0) pre) in
+  nth_error (w_reqs w) r = Some rq ->
+  let body := firstn (Z.to_nat (r_cl rq)) data in
+  snd (run buf None w [OBody r k; OHandOn r k']) = [OutBytes (take_opt k body); OutBytes (take_opt k' body)].
+Proof.
+  intros Hpre w Hr body.
+  destruct (first_access_lemma data sc cl0 pre r rq k Hpre Hr) as (w1 & Hstep & (rq1 & Hr1 & Hf1 & Hc1) & _).
+  fold w in Hstep. fold body in Hstep, Hc1.
+  assert (Hcl : r_cl rq1 = r_cl rq).
+  { revert Hstep Hr1. cbn [step]. rewrite Hr.
+    destruct (r_failed rq); [intros H; injection H as <- _; rewrite Hr; congruence|].
+    destruct (r_cache rq) as [c0|]; [intros H; injection H as <- _; rewrite Hr; congruence|].
+    destruct (body_read_cl _ _ _ _) as [b sp s'|s'|s'|]; intros H; injection H as <- _; cbn [w_reqs];
+      try (rewrite Hr; congruence);
+      rewrite nth_error_set_nth_eq by (eapply nth_error_Some_lt; exact Hr); intros E; injection E as <-; reflexivity. }
+  destruct (hand_on_lemma w1 r rq1 body k' Hr1 Hf1 Hc1) as (w2 & s2 & Hstep2 & _).
+  cbn [run]. rewrite Hstep, Hstep2. cbn [snd]. rewrite Hcl. unfold body. rewrite firstn_firstn, Nat.min_id. reflexivity.
 Qed.
 
 End First.
